@@ -129,7 +129,11 @@ Lits == <<
   \* behaviour of the YAML-to-JSON bridge), so JSON null and YAML null are not the same content here
   Lit("null", "null", "", "", FALSE, "", "", "", 0, FALSE),
   Lit("[1]", "array", "", "", FALSE, "", "", "", 0, TRUE),
-  Lit("{\"x\":1}", "object", "", "", FALSE, "", "", "", 0, TRUE) >>
+  Lit("{\"x\":1}", "object", "", "", FALSE, "", "", "", 0, TRUE),
+  \* 61..66  strings with characters that URLs, queries, headers and JSON must escape.
+  \* A rune outside ASCII is NAMED <U+XXXX> (TLC prints ASCII only); the driver expands the name.
+  St("hello world", "plain"), St("100%", "plain"), St("a+b", "plain"), St("x&y=z?w#v", "plain"),
+  St("<U+4F60><U+597D>", "plain"), St("say \"hi\"", "plain") >>
 
 NLits == Len(Lits)
 LitByText(t) == Lits[CHOOSE i \in 1..NLits : Lits[i].text = t /\ Lits[i].class # "string"]
@@ -290,8 +294,8 @@ Allowed(k, o, doc, src) ==
 \* Err if any element must fail, the element values otherwise.
 \* (Duration elements: the statement names Duration as a field kind; inside containers acceptance is left open)
 ElemOutcome(k, l) == IF k = "duration" THEN Weaken(ConvTyped(l, k)) ELSE ConvTyped(l, k)
-SeqAllowed(k, items) ==
-  LET os == [i \in 1..Len(items) |-> ElemOutcome(k, items[i])]
+SeqAllowedM(k, items, mode) ==
+  LET os == [i \in 1..Len(items) |-> IF mode = "text" THEN ConvText(items[i], k) ELSE ElemOutcome(k, items[i])]
       idx == 1..Len(items)
   IN IF \E i \in idx : IsMustErr(os[i]) THEN [err |-> TRUE, ok |-> FALSE, any |-> FALSE, vals |-> <<>>,
                                                      why |-> os[CHOOSE i \in idx : IsMustErr(os[i])].why]
@@ -300,6 +304,19 @@ SeqAllowed(k, items) ==
            any |-> \E i \in idx : os[i].any,
            vals |-> [i \in idx |-> IF os[i].ok THEN os[i].val ELSE [v |-> "any", text |-> "", ms |-> 0]],
            why |-> ""]
+
+SeqAllowed(k, items) == SeqAllowedM(k, items, "typed")
+\* a slice field whose tag declares default=[e1,e2]: the elements are tag text
+DefaultSeqAllowed(k, items) == SeqAllowedM(k, items, "text")
+
+\* --------------------------------------------------------------- independence of calls
+\* "absent fields take their declared default", "every field equals the document's value": the
+\* clauses speak about each call on its own, so Allowed has no history argument.  Whatever was
+\* unmarshalled before, and whatever the caller did to an earlier result (edit its slices and maps
+\* in place, append to them), the n-th call with the same type and the same document has the same
+\* allowed set as the first.  (Nothing is claimed about aliasing between a caller-supplied
+\* map[string]any and the result; the driver hands every call a freshly rendered document.)
+AllowedAgain(k, o, doc, src) == Allowed(k, o, doc, src)
 
 \* --------------------------------------------------------------- struct of fields
 \* outs: sequence of field outcomes. The struct fails if any field must fail.
